@@ -13,6 +13,7 @@ using namespace verif;
 void verif_case_reset() { reg().reset(); }
 
 namespace {
+int g_seen_self = 0;
 using UP = frg::unique_ptr<Tracked, track_alloc>;
 using UM = frg::unique_memory<track_alloc>;
 
@@ -85,6 +86,48 @@ void run_mem(Ctx &c) {
 	c.nontrivial = released;
 	c.tag("unique_memory");
 }
+
+// An owned object whose destructor reaches back to its owner (an observer that unregisters itself). std::unique_ptr::reset
+// stores the new pointer before it destroys the old object, so during that destructor the owner no longer refers to the
+// dying object and a nested reset()/release() on the owner is harmless.
+struct Conn;
+using UPC = frg::unique_ptr<Conn, track_alloc>;
+struct Conn : Tracked {
+	UPC *owner = nullptr; int mode = 0; bool dying = false;
+	Conn(int v) : Tracked(v) {}
+	~Conn();
+};
+Conn::~Conn() {
+	if(dying || !owner) return;
+	dying = true;
+	if(owner->get() == this) { g_seen_self++; if(mode == 0) owner->reset(nullptr); else if(mode == 1) (void)owner->release(); }
+}
+void run_reentrant(Ctx &c) {
+	auto &t = c.t;
+	c.op("unique_ptr<Conn>: destructor of the owned object calls back into the owner");
+	c.tag("unique_ptr-reentrant");
+	track_alloc a;
+	UPC *p = c.make<UPC>(track_alloc{});
+	int nextv = 1; bool released = false;
+	unsigned nops = 2 + t.pick(8);
+	for(unsigned i = 0; i < nops; i++) {
+		int mode = t.pick(3);
+		bool to_null = t.pick(3) == 0;
+		Conn *q = nullptr;
+		if(!to_null) { int v = nextv++; q = new (a.allocate(sizeof(Conn))) Conn(v); q->owner = p; q->mode = mode; }
+		c.op("p.reset(%s) with the held object in mode %d", q ? "new Conn" : "nullptr", p->get() ? p->get()->mode : -1);
+		if(p->get()) released = true;
+		g_seen_self = 0;
+		p->reset(q);
+		VCHECK(c, "C16", g_seen_self == 0, "reset(): while the old object was being destroyed the owner still referred to it (std::unique_ptr::reset stores the new pointer first)");
+		VCHECK(c, "C16", p->get() == q, "reset(%p): the owner holds %p", (void *)q, (void *)p->get());
+		VTRACK_POLL(c);
+	}
+	if(p->get()) p->get()->owner = nullptr;       // the owner's own destructor gives no such guarantee
+	c.destroy(p);
+	VTRACK_END(c);
+	c.nontrivial = released;
+}
 }
 
-void verif_case(Ctx &c) { if(c.t.pick(3) == 0) run_mem(c); else run_ptr(c); }
+void verif_case(Ctx &c) { unsigned k = c.t.pick(4); if(k == 0) run_mem(c); else if(k == 3) run_reentrant(c); else run_ptr(c); }
